@@ -5,6 +5,6 @@ CONSTANTS
   Pats2 <- Pats2Thorough
   Reps <- RepsDef
   Traffic <- TrafficThorough
-  MaxSeg = 40
+  MaxSeg = 30
   MaxSec = 45
 INVARIANTS IdxAgrees IdxCounts OnePerCycle TwoPatterns HitOrNormal TrafficTotal TrafficCyclic TrafficDurations TrafficOrder
